@@ -504,7 +504,7 @@ def run():
         if name.startswith('P5'):
             bound += 1
         bounds[name] = bound
-        fbound = 3 if thorough else 2
+        fbound = int(os.environ.get('VERIF_C10_FBOUND', 3 if thorough else 2))
         # determinism obligation: the default schedule twice, same observation
         watched = watched_files(mido, name)
         e1, o1 = es.run_schedule(progs[name], [], watched)
